@@ -115,10 +115,13 @@ def check(run, views, tier):
                         inner = unwrap(val["e"]) if val.get("k") == "ref" else val
                         direct = inner.get("k") == "field" and unwrap(inner["e"]).get("k") == "path" and unwrap(inner["e"])["res"].get("name") == "self"
                         got.append((name, inner.get("name") if direct else None))
-                    run.ob("R-SERDE", "%s: serialises fields %s under their own names" % (ty, expect), got == [(f, f) for f in expect],
+                    names = [g[0] for g in got]
+                    run.ob("R-SERDE", "%s: serialises every field %s once, by direct reference" % (ty, expect), [g[1] for g in got] == expect and len(set(names)) == len(names),
                            "generated serialize emits %s" % got, site(sb), key="R-SERDE|%s|ser-fields" % ty)
                     flds = [c["value"] for k, c in consts.items() if k.startswith("FIELDS@")]
-                    run.ob("R-SERDE", "%s: deserialises fields %s" % (ty, expect), flds == [expect], "generated FIELDS = %s" % flds, st,
+                    # names may be renamed (rename / rename_all) as long as both directions use the same names
+                    run.ob("R-SERDE", "%s: deserialises the same names %s" % (ty, names), flds == [names],
+                           "generated serialize writes %s but the generated deserialize expects %s (one-sided rename / skip)" % (names, flds), st,
                            key="R-SERDE|%s|de-fields" % ty)
                     skipped = [f for f in v["fields"] if (ty, f["name"]) in SKIPPED]
                     for f in skipped:
@@ -137,20 +140,27 @@ def check(run, views, tier):
                 for n in vcalls:
                     idx = unwrap(n["args"][2])
                     got.append((unwrap(n["args"][1]).get("v"), lit_int(idx), unwrap(n["args"][3]).get("v")))
-                expect = [(ty.split("::")[-1], i, n) for i, n in enumerate(vnames)]
-                run.ob("R-SERDE", "%s: every variant serialised under its own name and index" % ty, sorted(got, key=lambda x: (x[1] is None, x[1])) == expect,
-                       "generated variant calls %s, expected %s" % (got[:6], expect[:6]), site(sb), key="R-SERDE|%s|ser-variants" % ty)
+                srt = sorted(got, key=lambda x: (x[1] is None, x[1]))
+                idx_ok = [g[1] for g in srt] == list(range(len(vnames))) and len({g[2] for g in srt}) == len(srt)
+                run.ob("R-SERDE", "%s: every variant serialised once under a distinct name, index = declaration order" % ty, idx_ok,
+                       "generated variant calls %s for %d variants" % (got[:6], len(vnames)), site(sb), key="R-SERDE|%s|ser-variants" % ty)
                 var = [c["value"] for k, c in consts.items() if k.startswith("VARIANTS@")]
-                run.ob("R-SERDE", "%s: deserialises variants %s.." % (ty, vnames[:3]), var == [vnames], "generated VARIANTS = %s" % var, st, key="R-SERDE|%s|de-variants" % ty)
+                run.ob("R-SERDE", "%s: deserialises the same variant names" % ty, var == [[g[2] for g in srt]],
+                       "generated serialize writes %s.. but VARIANTS = %s" % ([g[2] for g in srt][:4], [v[:4] for v in var]), st, key="R-SERDE|%s|de-variants" % ty)
                 # struct variants: field names
                 sv = {v["name"]: [f["name"] for f in v["fields"]] for v in adt["variants"] if v["fields"] and not v["fields"][0]["name"].isdigit()}
                 got_f = [unwrap(n["args"][1]).get("v") for n in field_calls]
                 expect_f = [f for v in adt["variants"] if v["name"] in sv for f in sv[v["name"]]]
-                run.ob("R-SERDE", "%s: struct-variant fields serialised under their own names" % ty, got_f == expect_f, "emits %s, expected %s" % (got_f, expect_f), site(sb),
+                run.ob("R-SERDE", "%s: every struct-variant field serialised" % ty, len(got_f) == len(expect_f), "emits %s for fields %s" % (got_f, expect_f), site(sb),
                        key="R-SERDE|%s|ser-variant-fields" % ty)
                 fl = sorted(tuple(c["value"]) for k, c in consts.items() if k.startswith("FIELDS@"))
-                run.ob("R-SERDE", "%s: struct-variant field tables on the deserialise side" % ty, fl == sorted(tuple(x) for x in sv.values()),
-                       "generated FIELDS tables %s, expected %s" % (fl, sorted(sv.values())), st, key="R-SERDE|%s|de-variant-fields" % ty)
+                # group the serialised names per struct variant, in declaration order
+                groups, pos = [], 0
+                for vn in [v["name"] for v in adt["variants"] if v["name"] in sv]:
+                    groups.append(tuple(got_f[pos:pos + len(sv[vn])]))
+                    pos += len(sv[vn])
+                run.ob("R-SERDE", "%s: struct-variant field tables agree in both directions" % ty, fl == sorted(groups),
+                       "generated FIELDS tables %s, serialised names %s" % (fl, sorted(groups)), st, key="R-SERDE|%s|de-variant-fields" % ty)
                 for n in field_calls:
                     val = unwrap(n["args"][2])
                     inner = unwrap(val["e"]) if val.get("k") == "ref" else val
